@@ -112,6 +112,7 @@ func GuardedRowConstruction(p *core.Program, r *core.Report, rule string) {
 	src, dst := sig.Params().At(sig.Params().Len()-2), sig.Params().At(sig.Params().Len()-1)
 	w := facts.NewWalker(info)
 	w.Atomize = PeerTypeAtomizer(info)
+	w.Inline = true
 	sawFinal := false
 	w.OnStmt = func(s ast.Stmt, f facts.Formula) {
 		ret, ok := s.(*ast.ReturnStmt)
